@@ -65,14 +65,16 @@ Qed.
 Lemma norm_calls_app a b : norm_calls (a ++ b) = norm_calls a ++ norm_calls b.
 Proof. unfold norm_calls. apply map_app. Qed.
 
-Lemma oconcat_rel {A} (f g : A -> option (list call)) (l : list A) :
-  (forall x, In x l -> exists c, f x = Some c /\ g x = Some (norm_calls c)) ->
-  exists cs, oconcat f l = Some cs /\ oconcat g l = Some (norm_calls cs).
+(* element-wise agreement at EVERY position gives agreement of the loops (the position matters:
+   an element may be delivered by address) *)
+Lemma oconcati_rel {A} (f g : Z -> A -> option (list call)) (l : list A) :
+  (forall i x, In x l -> exists c, f i x = Some c /\ g i x = Some (norm_calls c)) ->
+  forall i0, exists cs, oconcati f i0 l = Some cs /\ oconcati g i0 l = Some (norm_calls cs).
 Proof.
-  induction l as [|x l IH]; intros H; cbn.
+  induction l as [|x l IH]; intros H i0; cbn.
   - exists []. split; reflexivity.
-  - destruct (H x (or_introl eq_refl)) as (c & Hf & Hg).
-    destruct IH as (cs & Ef & Eg); [intros y Hy; apply H; right; exact Hy|].
+  - destruct (H i0 x (or_introl eq_refl)) as (c & Hf & Hg).
+    destruct (IH (fun i y Hy => H i y (or_intror Hy)) (Z.succ i0)) as (cs & Ef & Eg).
     rewrite Hf, Ef, Hg, Eg. exists (c ++ cs). rewrite norm_calls_app. split; reflexivity.
 Qed.
 
@@ -116,15 +118,17 @@ Ltac split_cmp := repeat (match goal with
 
 (* an element-wise loop over the slice l *)
 Ltac loops := try match goal with
-  | Hl : forallb (in_typeb ?t) ?l = true |- context[run_loop ?A ?L ?l] =>
+  | Hl : forallb (in_typeb ?t) ?l = true |- context[run_loop ?A ?L ?a ?l] =>
       let cs := fresh "cs" in let E1 := fresh "E" in let E2 := fresh "E" in
-      destruct (oconcat_rel (loop1 A L) (exp_elem t) l) as (cs & E1 & E2);
-      [ let x := fresh "x" in let Hx := fresh "Hx" in
-        intros x Hx; apply (forallb_In _ _ _ Hl) in Hx;
+      let H := fresh "H" in
+      assert (H : forall i x, In x l -> exists c, loop1 A L a i x = Some c /\ exp_elem t a i x = Some (norm_calls c));
+      [ let i := fresh "i" in let x := fresh "x" in let Hx := fresh "Hx" in
+        intros i x Hx; apply (forallb_In _ _ _ Hl) in Hx;
         destruct x; cbn in Hx; try discriminate Hx;
         repeat match goal with o : opq |- _ => destruct o end;
         cbn [loop1 exp_elem]; cbn; eexists; split; reflexivity
-      | unfold run_loop; rewrite E1; cbn; try rewrite E2 ]
+      | destruct (oconcati_rel (loop1 A L a) (exp_elem t a) l H 0) as (cs & E1 & E2);
+        unfold run_loop; rewrite E1; cbn; try rewrite E2 ]
   end.
 
 Ltac finish :=
